@@ -46,6 +46,15 @@ def scratch_copy():
         if os.path.isfile(p) and fn.endswith(('.cpp', '.h', '.hpp', '.in', '.am', '.f90', '.i')) or fn == 'Makefile':
             if os.path.isfile(p):
                 shutil.copy2(p, os.path.join(tmp, 'src', fn))
+    # small non-compiled sub-directories that patches may touch (scripts, templates); build output is never copied
+    for sub in ('import', 'common', 'lic_utils'):
+        sp = os.path.join(REPO, 'src', sub)
+        if os.path.isdir(sp):
+            shutil.copytree(sp, os.path.join(tmp, 'src', sub), ignore=shutil.ignore_patterns('*.o', '*.lo', '.libs', '.deps', '*.la'))
+    for extra in ('src/autoimport.pl', 'src/__init__.py'):
+        ep = os.path.join(REPO, extra)
+        if os.path.isfile(ep):
+            shutil.copy2(ep, os.path.join(tmp, extra))
     shutil.copy2(os.path.join(REPO, 'config.h'), os.path.join(tmp, 'config.h'))
     return tmp
 
